@@ -80,7 +80,7 @@ func ruleSuiteProvenance(c *Ctx, r *Report) {
 					// same iteration: must not be reached when the filter said no, before the next iteration
 					w2 := &Walk{Fn: fn, Assume: failAssumption(filt[0])}
 					reached := false
-					w2.Visit = func(in ssa.Instruction, _ map[*ssa.Phi]Val) bool {
+					w2.Visit = func(in ssa.Instruction, _ Env) bool {
 						if in == ssa.Instruction(filt[0]) {
 							return false // next iteration
 						}
@@ -162,7 +162,7 @@ func ruleCurvePolicy(c *Ctx, r *Report) {
 	w := &Walk{Fn: fn, Assume: failAssumption(okV)}
 	hdr := loopHeaderOf(sel[0].Block())
 	adv := false
-	w.Visit = func(in ssa.Instruction, _ map[*ssa.Phi]Val) bool {
+	w.Visit = func(in ssa.Instruction, _ Env) bool {
 		if hdr != nil && in == firstNonPhi(hdr) {
 			adv = true // continued with the next extension: the failure was ignored
 			return false
